@@ -23,7 +23,7 @@ def binding_selftest(c, specs, td, rejected):
     spec)."""
     import concurrent.futures as cf
     import vcheck
-    want = {"dyn": None, "lst": None, "pg": None}
+    want = {"dyn": None, "dyn2": None, "dynstale": None, "lst": None, "pg": None}
     cur = []
     with open(os.path.join(td, "shard00.ndjson")) as f:
         for line in f:
@@ -35,6 +35,13 @@ def binding_selftest(c, specs, td, rejected):
                 continue
             if e["ev"] == "dyn-draw" and want["dyn"] is None and len(e["kids"]) >= 2 and e["pan"] == "":
                 want["dyn"] = list(cur)
+            if (e["ev"] == "dyn-draw" and want["dyn2"] is None and len(cur) >= 3 and cur[-2]["ev"] == "dyn-draw" and cur[-2]["sel"]
+                    and e["n"] > 0 and e["H"] > 0 and (e["W"], e["H"]) == (cur[-2]["W"], cur[-2]["H"]) and e["kids"]):
+                want["dyn2"] = list(cur)     # the same viewport drawn again directly after the draw that followed a selection change
+            if (e["ev"] == "dyn-draw" and want["dynstale"] is None and len(cur) >= 3 and cur[-2]["ev"] == "dyn-op"
+                    and cur[-2]["op"] in ("replace", "setcursorabs") and cur[-2]["idx"] >= cur[-2]["n"] > 0
+                    and (cur[-3]["ev"] != "dyn-op" or cur[-3]["n"] == 0 or cur[-3]["idx"] < cur[-3]["n"])):
+                want["dynstale"] = list(cur)  # index beyond the items (tolerated until this draw), then the draw
             elif (e["ev"] == "lst-draw" and want["lst"] is None and e["n"] >= 2 and e["h"] >= 2 and e["w"] >= 1 and e["pan"] == ""
                   and not any(x["ev"] in ("lst-op", "lst-draw") for x in cur[:-1])):
                 want["lst"] = list(cur)
@@ -56,6 +63,9 @@ def binding_selftest(c, specs, td, rejected):
     mutate("dyn", "not-contiguous", lambda v: v[-1]["kids"][-1].__setitem__(1, v[-1]["kids"][-1][1] + 1))
     mutate("dyn", "order", lambda v: v[-1]["kids"][0].__setitem__(0, v[-1]["kids"][0][0] + 1))
     mutate("dyn", "index-out-of-range", lambda v: v[-1].__setitem__("idx", v[-1]["n"]))
+    mutate("dyn2", "selected-lost-on-redraw", lambda v: [kk.__setitem__(1, kk[1] + 100) for kk in v[-1]["kids"]])
+    mutate("dynstale", "index-out-of-range", lambda v: v[-1].__setitem__("idx", v[-2]["idx"]))   # the draw did not repair it
+    mutate("dynstale", "index-out-of-range", lambda v: v[-2].__setitem__("op", "next"))          # only those two operations are tolerated
     mutate("lst", "index-out-of-range", lambda v: v[-1].__setitem__("idx", -1))
     mutate("lst", "*", lambda v: v[-1]["items"].reverse())          # the screen no longer shows the items in this order
     mutate("pg", "offset-not-clamped", lambda v: [x for x in v if x["ev"] == "pg-draw"][-1].__setitem__("off", 40))
@@ -109,10 +119,13 @@ def main(c):
         "harness lexer + RefTerm reference terminal (C01's oracle) turn the rendered bytes into the screen a user sees; "
         "the renderer itself is C01's subject",
         "applications clear the window before drawing a widget (as the library's examples do)",
-        "builder-driven list: SetCursor targets an existing item and item replacement keeps the selected item (the widget "
-        "cannot know the item count); item heights >= 1",
-        "selected-item visibility is demanded for viewports with at least one row (and one column for the classic list); "
-        "'inside the viewport' = at least one row of the item is a viewport row",
+        "builder-driven list: the widget learns which items exist only by asking its builder, so an index left beyond the "
+        "items by an item replacement or by a set-cursor beyond the end is tolerated until the next draw and must be in "
+        "range from that draw on; item heights >= 1",
+        "selected-item visibility is demanded for viewports with at least one row (and one column for the classic list), at "
+        "the draw that follows a selection change and at every further draw of the same viewport with no operation in "
+        "between; not when the user scrolled or the items were replaced after selecting, nor at a draw that itself had to "
+        "move the selection; 'inside the viewport' = at least one row of the item is a viewport row",
         "pager: windows at least as wide as the widest grapheme; an extra EMPTY row after an exactly full row or after a "
         "final terminator is tolerated (nothing is lost)",
     ]
@@ -147,7 +160,8 @@ def main(c):
             c.notes.append("%s (not decisive: the run reports violations)" % e)
     return c.finish(
         rule="scenario = one widget (vxfw/list.Dynamic | widgets/list | widgets/pager | widgets/scrollbar) x initial items "
-             "(count incl. 0 and nil, heights, gap, gutter) x operation history interleaved with draws at varying viewport "
-             "sizes; bounded-exhaustive histories over the operation alphabet plus seeded random long histories; pager: all "
+             "(count incl. 0 and nil, heights, gap, gutter) x operation history (incl. set-cursor beyond the items and "
+             "replacements that remove the selected item) interleaved with draws at varying viewport sizes and repeated "
+             "draws; bounded-exhaustive histories over the operation alphabet plus seeded random long histories; pager: all "
              "texts over {a, b, wide, newline} up to a length x widths x scroll histories; every operation and every draw "
              "is judged by ListRel / Pager; distinct = distinct scenario descriptor")
